@@ -204,7 +204,17 @@ static void check_stream(Ctx &c, T v)
         cmp_text(c, "string_stream<<(appended)", s2.to_string(), "ab" + want + want, k,
                  strf("string_stream << \"ab\" << v << v with v=(%s)%s", TI<T>::name(), i128s(v).c_str()));
         // appended when the stream is exactly at / next to a capacity boundary (in-object 256, first heap block 512)
-        for (size_t pre : {size_t(255), size_t(256), size_t(257), size_t(511), size_t(512)}) {
+        // every fill level from 21 below to 1 above the first three capacities for values whose text has a distinct
+        // length or sign; the boundary levels themselves for every value
+        static const std::vector<size_t> FEW = {255, 256, 257, 511, 512}, ALL = [] {
+            std::vector<size_t> a;
+            for (size_t cap : {size_t(256), size_t(512), size_t(1024)})
+                for (size_t f = cap - 21; f <= cap + 1; ++f) a.push_back(f);
+            return a;
+        }();
+        const bool sweep = want.size() >= 19 || v == T(-1) || v == T(7) || v == std::numeric_limits<T>::min() || v == std::numeric_limits<T>::max() ||
+                           v == T(-12345) || v == T(100);
+        for (size_t pre : sweep ? ALL : FEW) {
             ST::string_stream s3;
             s3.append_char('p', pre);
             s3 << v << "|";
